@@ -98,57 +98,74 @@ pub fn c04_l1_seal_in_place_step() {
     kani::cover!(!ovf && seq == 0x00ff_ffff_ffff_ffff && len == PT, "carry boundary");
 }
 
-//@h name=c04_l1_seal_alloc_step tier=quick mode=func timeout=900 desc="same step through the allocating seal(): output = ciphertext || tag, length +16, same state machine" bounds="state fully symbolic; plaintext 0..=3 B, aad 0..=3 B; unwind 34"
-/// L1 for the allocating seal(): ciphertext = in-place ciphertext || tag, same state machine
-#[kani::proof]
-#[kani::unwind(34)]
-#[kani::stub(zeroize::optimization_barrier, noop_barrier)]
-pub fn c04_l1_seal_alloc_step() {
-    let key: [u8; 16] = kani::any();
-    let base: [u8; 12] = kani::any();
-    let exp: [u8; 8] = kani::any();
-    let seq: u64 = kani::any();
-    let ovf: bool = kani::any();
-    let mut ctx = ctx_s_from_parts::<A, K, M>(&key, &base, &exp, seq, ovf);
-    let len = any_len(PTA);
-    let pt: [u8; PTA] = kani::any();
-    let aad: [u8; AD] = kani::any();
-    let alen = any_len(AD);
-    let tag: [u8; 16] = kani::any();
-    spy().next_tag = tag;
-    spy().enc_ok = true;
-    let encs0 = spy().encs;
-    let res = ctx.seal(&pt[..len], &aad[..alen]);
-    let (seq2, ovf2) = ctx.verif_seq_state();
-    if ovf {
-        assert!(matches!(res, Err(HpkeError::MessageLimitReached)));
-        assert!(spy().encs == encs0);
-        assert!(seq2 == seq && ovf2);
-    } else {
-        assert!(spy().encs == encs0 + 1);
-        assert!(spy().last.nonce == expected_nonce(&base, seq));
-        match res {
-            Ok(ct) => {
-                assert!(ct.len() == len + 16);
-                let mut i = 0;
-                while i < PTA {
-                    if i < len {
-                        assert!(ct[i] == pt[i] ^ 0x5c);
+/// L1 for the allocating seal(): ciphertext = in-place ciphertext || tag, same state machine.
+/// The plaintext length is concrete per harness (a symbolic-size `vec!` allocation costs CBMC
+/// >10 GB); hpke never branches on it.
+macro_rules! seal_alloc_harness {
+    ($name:ident, $len:expr) => {
+        #[kani::proof]
+        #[kani::unwind(34)]
+        #[kani::stub(zeroize::optimization_barrier, noop_barrier)]
+        pub fn $name() {
+            const LEN: usize = $len;
+            let key: [u8; 16] = kani::any();
+            let base: [u8; 12] = kani::any();
+            let exp: [u8; 8] = kani::any();
+            let seq: u64 = kani::any();
+            let ovf: bool = kani::any();
+            let mut ctx = ctx_s_from_parts::<A, K, M>(&key, &base, &exp, seq, ovf);
+            let pt: [u8; LEN] = kani::any();
+            let aad: [u8; AD] = kani::any();
+            let alen = any_len(AD);
+            let tag: [u8; 16] = kani::any();
+            spy().next_tag = tag;
+            let enc_ok: bool = kani::any();
+            spy().enc_ok = enc_ok;
+            let encs0 = spy().encs;
+            let res = ctx.seal(&pt, &aad[..alen]);
+            let (seq2, ovf2) = ctx.verif_seq_state();
+            if ovf {
+                assert!(matches!(res, Err(HpkeError::MessageLimitReached)));
+                assert!(spy().encs == encs0);
+                assert!(seq2 == seq && ovf2);
+            } else {
+                assert!(spy().encs == encs0 + 1);
+                let c = &spy().last;
+                assert!(c.nonce == expected_nonce(&base, seq));
+                assert!(c.aad_len == alen && eq_bytes(&c.aad[..alen], &aad[..alen]));
+                assert!(c.buf_len == LEN && eq_bytes(&c.buf[..LEN], &pt));
+                if enc_ok {
+                    match res {
+                        Ok(ct) => {
+                            assert!(ct.len() == LEN + 16);
+                            let mut i = 0;
+                            while i < LEN {
+                                assert!(ct[i] == pt[i] ^ 0x5c);
+                                i += 1;
+                            }
+                            assert!(eq_bytes(&ct[LEN..], &tag));
+                        }
+                        Err(_) => assert!(false, "seal must succeed when the AEAD succeeds"),
                     }
-                    i += 1;
+                    if seq == u64::MAX {
+                        assert!(ovf2 && seq2 == seq);
+                    } else {
+                        assert!(!ovf2 && seq2 == seq + 1);
+                    }
+                } else {
+                    assert!(matches!(res, Err(HpkeError::SealError)));
                 }
-                assert!(eq_bytes(&ct[len..], &tag));
             }
-            Err(_) => assert!(false, "seal must succeed"),
+            kani::cover!(!ovf && seq == u64::MAX && enc_ok, "last sequence number is usable");
         }
-        if seq == u64::MAX {
-            assert!(ovf2 && seq2 == seq);
-        } else {
-            assert!(!ovf2 && seq2 == seq + 1);
-        }
-    }
-    kani::cover!(!ovf && seq == u64::MAX, "last sequence number is usable");
+    };
 }
+//@h name=c04_l1_seal_alloc_len0 tier=quick mode=func timeout=900 desc="one step of the allocating seal() on an empty plaintext from an arbitrary state: output = tag only (16 B), same nonce formula and state machine as the in-place form, exhausted context refuses without calling the AEAD" bounds="state, tag, AEAD verdict symbolic; plaintext length 0 (concrete), aad 0..=3 B; unwind 34"
+seal_alloc_harness!(c04_l1_seal_alloc_len0, 0);
+//@h name=c04_l1_seal_alloc_len3 tier=quick mode=func timeout=900 desc="same for a 3-byte plaintext: output = in-place ciphertext || tag, length +16" bounds="state, tag, AEAD verdict symbolic; plaintext length 3 (concrete), contents symbolic; aad 0..=3 B; unwind 34"
+seal_alloc_harness!(c04_l1_seal_alloc_len3, 3);
+//@h name=c04_l1_seal_alloc_len17 tier=thorough mode=func timeout=1800 desc="same for a 17-byte plaintext (one byte over the AEAD block)" bounds="plaintext length 17 (concrete), contents symbolic; unwind 34"
+seal_alloc_harness!(c04_l1_seal_alloc_len17, 17);
 
 /// L2: ComputeNonce is the RFC formula and is injective in seq, on the three real AEAD types
 macro_rules! mix_harness {
